@@ -1,24 +1,29 @@
 """Translator for C19: tables of the write-out mechanism, regenerated from the repo on every run.
 
-  symbolReplacements : the dict literal iterated in `NameSelector.get_name` (ford/sourceform.py)
-  outDirs            : the list literal of the first `for directory in [...]` loop of
-                       `Documentation.writeout` that calls `.mkdir` (ford/output.py)
-  libDirs            : the list literal of the loop that calls `copytree(loc / directory, ...)`
+Round 5: the tables are tied to what the code *does*, not to how it is spelled.  Every decision is observed by running
+the real code on a small input (harness/c19_probe.py; 0.6 s in all):
+
+  symbolReplacements : the substitution `NameSelector.get_name` (ford/sourceform.py) applies to a name, probed character
+                       by character over an alphabet and validated on words (wherever the table lives: literal in the
+                       method, class constant, module constant ...)
+  outDirs            : the directories a real run creates directly below the output directory right after (re-)creating
+                       it, in order
+  libDirs            : the installation trees (`ford/<name>`) a real run copies next, in order
   copytreeSymlinks / copytreeIgnoreDangling / copytreeDirsExistOk
-                     : the keyword arguments `symlinks`, `ignore_dangling_symlinks`, `dirs_exist_ok` of
-                       the `shutil.copytree` call inside the module-level wrapper `copytree` (ford/output.py;
-                       absent = the library default False), which decide what the copy of a tree that
-                       contains symbolic links consists of; the copy function must be `shutil.copy`
+                     : what the wrapper `ford.output.copytree` does with a tree that contains symbolic links (to a file,
+                       to a directory, outside, dangling) and with an existing destination; the probe also checks what
+                       the model assumes besides (one file = `open` + `chmod`, then FORD's `touch`; every entry copied)
   wipeWholeTree / wipeFailureFatal
-                     : the clean-up at the start of `Documentation.writeout` (the statements before the loop that
-                       creates the fixed sub-directories): is the old output removed by one `shutil.rmtree(<out_dir>)`
-                       on the output directory itself (which unlinks every symbolic link below it without following
-                       it); does a failing `<out_dir>.mkdir(...)` - the directory is still there - end the run
-  graphSkipsLinks    : does `FortranGraph._create_image_file` (ford/graphs.py) test `is_symlink` before it lets
-                       graphviz write (the graph directory is never cleaned: links left in it are still there)
-  fixedNames         : every string constant that `writeout`, `BasePage` subclasses (`out_page`,
-                       `template_path` of ListTopPage), `print_output` and `dump_modules` join to the
-                       output directory with `/`
+                     : the clean-up at the start of the write-out, observed on an old output directory that holds
+                       files, directories, dot-entries and symbolic links at two depths: is nothing left of it when the
+                       directory is created again (so no link survives), were removals below it all that happened; and
+                       when the removal of one link fails: does the run end without doing anything else
+  graphSkipsLinks    : does `FortranGraph.create_svg` (ford/graphs.py; stub graph, real graphviz) leave alone what a
+                       symbolic link under `<graph_dir>/<imgfile>` / `<imgfile>.svg` points to
+  listPages          : `out_page` of the page classes of ford.output, looked up on the class objects
+  fixedNames         : every string constant that `Documentation.writeout` - and the functions / methods of the module it
+                       calls, transitively - puts to the right of a `/` (or into `joinpath`); names are resolved to the
+                       module- / class-level / local constant they are bound to.  Read from the source (AST).
 """
 from __future__ import annotations
 
@@ -37,104 +42,122 @@ def _find_func(tree, cls, name):
     raise LookupError(f"{cls}.{name} not found")
 
 
-def copytree_kwargs(tree) -> dict:
-    """Keyword arguments of the one `shutil.copytree(...)` call in the module-level function `copytree`."""
-    fn = next((n for n in tree.body if isinstance(n, ast.FunctionDef) and n.name == "copytree"), None)
-    if fn is None:
-        raise LookupError("module-level function copytree not found in ford/output.py")
-    calls = [n for n in ast.walk(fn) if isinstance(n, ast.Call) and ast.unparse(n.func) == "shutil.copytree"]
-    if len(calls) != 1:
-        raise LookupError(f"expected exactly one shutil.copytree call in ford.output.copytree, found {len(calls)}")
-    call = calls[0]
-    if len(call.args) > 2:
-        raise LookupError("shutil.copytree is called with more than two positional arguments")
-    res = {"symlinks": False, "ignore_dangling_symlinks": False, "dirs_exist_ok": False}
-    copy_fn = "shutil.copy2"
-    for k in call.keywords:
-        if k.arg is None:
-            raise LookupError("shutil.copytree is called with **kwargs")
-        if k.arg == "copy_function":
-            copy_fn = ast.unparse(k.value)
-        elif k.arg in res:
-            if not (isinstance(k.value, ast.Constant) and isinstance(k.value.value, bool)):
-                raise LookupError(f"keyword {k.arg} of shutil.copytree is not a Boolean literal")
-            res[k.arg] = k.value.value
-        elif k.arg == "ignore":
-            raise LookupError("shutil.copytree is called with an ignore= callback (not modelled)")
-    if copy_fn != "shutil.copy":
-        raise LookupError(f"copy_function of shutil.copytree is {copy_fn}, the model assumes shutil.copy")
-    return res
+# ---------------------------------------------------------------------------------------------
+# string constants joined with `/` in the write-out: read from the source, but by meaning - a name is resolved to
+# the module- / class-level constant it is bound to, and a block that was moved into a helper function (a
+# module-level function or a method of the same class) is followed
+# ---------------------------------------------------------------------------------------------
 
 
-_REMOVERS = {"unlink", "rmdir", "remove", "rmtree", "rename", "replace", "removedirs", "move"}
-_LISTERS = {"iterdir", "scandir", "listdir", "glob", "rglob", "walk"}
+def _literal(node):
+    try:
+        return ast.literal_eval(node)
+    except Exception:
+        return None
 
 
-def wipe_shape(wo: ast.FunctionDef) -> dict:
-    """The clean-up of the old output directory in `Documentation.writeout`."""
-    var = None
-    for st in wo.body:
-        if isinstance(st, (ast.Assign, ast.AnnAssign)):
-            tgt = st.targets[0] if isinstance(st, ast.Assign) else st.target
-            if isinstance(tgt, ast.Name) and st.value is not None and "output_dir" in ast.unparse(st.value):
-                var = tgt.id
-                break
-    if var is None:
-        raise LookupError("Documentation.writeout: the variable holding the output directory was not found")
-    section = []
-    for st in wo.body:
-        if isinstance(st, ast.For) and isinstance(st.iter, ast.List) and ".mkdir(" in ast.unparse(st):
-            break
-        section.append(st)
-    else:
-        raise LookupError("Documentation.writeout: the loop creating the fixed sub-directories was not found")
-    calls = [n for st in section for n in ast.walk(st) if isinstance(n, ast.Call)]
+class _Module:
+    def __init__(self, tree: ast.Module):
+        self.funcs = {n.name: n for n in tree.body if isinstance(n, ast.FunctionDef)}
+        self.classes = {n.name: n for n in tree.body if isinstance(n, ast.ClassDef)}
+        self.consts = {}
+        for n in tree.body:
+            self._bind(n, self.consts)
+        self.class_consts = {}
+        for c in self.classes.values():
+            env = self.class_consts.setdefault(c.name, {})
+            for n in c.body:
+                self._bind(n, env)
 
-    def attr(c):
-        return c.func.attr if isinstance(c.func, ast.Attribute) else (c.func.id if isinstance(c.func, ast.Name) else "")
+    @staticmethod
+    def _bind(st, env):
+        if isinstance(st, ast.Assign) and len(st.targets) == 1 and isinstance(st.targets[0], ast.Name):
+            v = _literal(st.value)
+            if v is not None:
+                env[st.targets[0].id] = v
+        elif isinstance(st, ast.AnnAssign) and isinstance(st.target, ast.Name) and st.value is not None:
+            v = _literal(st.value)
+            if v is not None:
+                env[st.target.id] = v
 
-    def on_out(c):  # the call acts on the output directory itself
-        if isinstance(c.func, ast.Attribute) and isinstance(c.func.value, ast.Name) and c.func.value.id == var:
-            return True
-        return bool(c.args) and isinstance(c.args[0], ast.Name) and c.args[0].id == var
+    def method(self, cls, name):
+        c = self.classes.get(cls)
+        return next((f for f in (c.body if c else []) if isinstance(f, ast.FunctionDef) and f.name == name), None)
 
-    rmtrees = [c for c in calls if attr(c) == "rmtree"]
-    whole = len(rmtrees) == 1 and on_out(rmtrees[0]) and ast.unparse(rmtrees[0].func) == "shutil.rmtree"
-    others = [c for c in calls if attr(c) in _REMOVERS | _LISTERS and c not in rmtrees
-              and not (attr(c) == "unlink" and on_out(c))]
-    if not rmtrees and not others:
-        raise LookupError("Documentation.writeout: no clean-up of the old output directory found")
-    if whole and others:
-        raise LookupError("Documentation.writeout: the clean-up does more than rmtree(<out_dir>) (not modelled): "
-                          + ", ".join(ast.unparse(c)[:60] for c in others))
-    # <out_dir>.mkdir(...): fatal when it fails?
-    mk = [c for c in calls if attr(c) == "mkdir" and on_out(c)]
-    if len(mk) != 1:
-        raise LookupError(f"Documentation.writeout: expected one {var}.mkdir(...) in the clean-up, found {len(mk)}")
-    exist_ok = any(k.arg == "exist_ok" and not (isinstance(k.value, ast.Constant) and k.value.value is False)
-                   for k in mk[0].keywords)
-    fatal = not exist_ok
-    for st in section:
-        for t in ast.walk(st):
-            if isinstance(t, ast.Try) and any(mk[0] is n for b in t.body for n in ast.walk(b)):
-                for h in t.handlers:
-                    ends = any(isinstance(n, ast.Raise) or (isinstance(n, ast.Call) and ast.unparse(n.func) in
-                                                             ("sys.exit", "exit", "quit", "os._exit"))
-                               for b in h.body for n in ast.walk(b))
-                    if not ends:
-                        fatal = False
-    return {"wipeWholeTree": whole, "wipeFailureFatal": fatal}
+    def value(self, node, cls=None, local=None):
+        """the constant an expression stands for (None = not a constant)"""
+        v = _literal(node)
+        if v is not None:
+            return v
+        if isinstance(node, ast.Name):
+            if local and node.id in local:
+                return local[node.id]
+            return self.consts.get(node.id)
+        if isinstance(node, ast.Attribute) and isinstance(node.value, ast.Name):
+            owner = cls if node.value.id in ("self", "cls") else node.value.id
+            return self.class_consts.get(owner, {}).get(node.attr)
+        return None
+
+    def reachable(self, cls, fn):
+        """`fn` and the functions of this module it calls (by name / as `self.<method>`), transitively"""
+        seen, todo, out = set(), [(cls, fn)], []
+        while todo:
+            c, f = todo.pop()
+            if id(f) in seen:
+                continue
+            seen.add(id(f))
+            out.append((c, f))
+            for n in ast.walk(f):
+                if not isinstance(n, ast.Call):
+                    continue
+                if isinstance(n.func, ast.Name) and n.func.id in self.funcs:
+                    todo.append((None, self.funcs[n.func.id]))
+                elif isinstance(n.func, ast.Attribute) and isinstance(n.func.value, ast.Name) \
+                        and n.func.value.id in ("self", "cls") and c is not None:
+                    m = self.method(c, n.func.attr)
+                    if m is not None:
+                        todo.append((c, m))
+        return out
 
 
-def graph_skips_links(repo: Path) -> bool:
-    gr = ast.parse((repo / "ford" / "graphs.py").read_text())
-    fn = _find_func(gr, "FortranGraph", "_create_image_file")
-    src_calls = [n for n in ast.walk(fn) if isinstance(n, ast.Call)]
-    if not any(isinstance(c.func, ast.Attribute) and c.func.attr == "render" for c in src_calls):
-        raise LookupError("FortranGraph._create_image_file: the graphviz render call was not found")
-    if any(isinstance(c.func, ast.Attribute) and c.func.attr in _REMOVERS - {"rename"} for c in src_calls):
-        raise LookupError("FortranGraph._create_image_file removes files (not modelled)")
-    return any(isinstance(c.func, ast.Attribute) and c.func.attr in ("is_symlink", "islink") for c in src_calls)
+def fixed_names(tree: ast.Module) -> list[str]:
+    mod = _Module(tree)
+    wo = mod.method("Documentation", "writeout")
+    if wo is None:
+        raise LookupError("Documentation.writeout not found")
+    fixed = set()
+    for cls, fn in mod.reachable("Documentation", wo):
+        local = {}
+        for st in ast.walk(fn):
+            _Module._bind(st, local)
+        for node in ast.walk(fn):
+            if isinstance(node, ast.BinOp) and isinstance(node.op, ast.Div):
+                v = mod.value(node.right, cls, local)
+                if isinstance(v, str):
+                    fixed.add(v)
+                elif isinstance(v, (list, tuple)):
+                    fixed.update(x for x in v if isinstance(x, str))
+            elif isinstance(node, ast.Call) and isinstance(node.func, ast.Attribute) and node.func.attr == "joinpath":
+                for a in node.args:
+                    v = mod.value(a, cls, local)
+                    if isinstance(v, str):
+                        fixed.add(v)
+    return sorted(fixed)
+
+
+def list_pages() -> list[str]:
+    """`out_page` of every page class of ford.output that has one (looked up on the class objects: however it is
+    defined - literal, table, inherited)"""
+    common.import_ford()
+    import inspect
+
+    import ford.output as fo
+
+    pages = {getattr(c, "out_page") for _n, c in inspect.getmembers(fo, inspect.isclass)
+             if c.__module__ == fo.__name__ and isinstance(getattr(c, "out_page", None), str)}
+    if not pages:
+        raise LookupError("out_page constants of the list pages not found")
+    return sorted(pages)
 
 
 def lean_bool(b: bool) -> str:
@@ -146,78 +169,47 @@ def lean_str(s: str) -> str:
 
 
 def extract(repo: Path | None = None) -> dict:
+    """The decisions are *observed* (harness/c19_probe.py: the real code runs on small inputs); only the constants the
+    write-out joins to the output directory are read from the source."""
+    from harness import c19_probe as probe
+
     repo = repo or common.REPO
-    sf = ast.parse((repo / "ford" / "sourceform.py").read_text())
-    get_name = _find_func(sf, "NameSelector", "get_name")
-    repl = None
-    for node in ast.walk(get_name):
-        if isinstance(node, ast.For) and isinstance(node.iter, ast.Call) and isinstance(node.iter.func, ast.Attribute) \
-                and node.iter.func.attr == "items" and isinstance(node.iter.func.value, ast.Dict):
-            d = node.iter.func.value
-            repl = [(ast.literal_eval(k), ast.literal_eval(v)) for k, v in zip(d.keys, d.values)]
-    if not repl or any(len(k) != 1 for k, _ in repl):
-        raise LookupError("symbol replacement dict of NameSelector.get_name not found (or a key is not one character)")
+    if Path(repo).resolve() != Path(common.REPO).resolve():
+        raise LookupError("the probes run the implementation under test (common.REPO) only")
     out = ast.parse((repo / "ford" / "output.py").read_text())
-    wo = _find_func(out, "Documentation", "writeout")
-    out_dirs = lib_dirs = None
-    for node in ast.walk(wo):
-        if isinstance(node, ast.For) and isinstance(node.iter, ast.List):
-            names = [ast.literal_eval(e) for e in node.iter.elts]
-            src = ast.unparse(node)
-            if ".mkdir(" in src and out_dirs is None:
-                out_dirs = names
-            elif "copytree(" in src and lib_dirs is None:
-                lib_dirs = names
-    if not out_dirs or not lib_dirs:
-        raise LookupError("directory lists of Documentation.writeout not found")
-    # fixed names joined to out_dir inside writeout (string constants on the right of `/`)
-    fixed = []
-    for node in ast.walk(wo):
-        if isinstance(node, ast.BinOp) and isinstance(node.op, ast.Div) and isinstance(node.right, ast.Constant) \
-                and isinstance(node.right.value, str):
-            fixed.append(node.right.value)
-    # out_page / template_path of the list pages and top pages
-    pages = {}
-    for node in out.body:
-        if isinstance(node, ast.ClassDef):
-            for st in node.body:
-                if isinstance(st, ast.Assign) and len(st.targets) == 1 and isinstance(st.targets[0], ast.Name) \
-                        and st.targets[0].id in ("out_page",) and isinstance(st.value, ast.Constant):
-                    pages[node.name] = st.value.value
-    if not pages:
-        raise LookupError("out_page constants of the list pages not found")
-    kw = copytree_kwargs(out)
-    wipe = wipe_shape(wo)
-    return {"wipeWholeTree": wipe["wipeWholeTree"], "wipeFailureFatal": wipe["wipeFailureFatal"],
-            "graphSkipsLinks": graph_skips_links(repo), "copytreeSymlinks": kw["symlinks"], "copytreeIgnoreDangling": kw["ignore_dangling_symlinks"],
-            "copytreeDirsExistOk": kw["dirs_exist_ok"], "symbolReplacements": repl, "outDirs": out_dirs, "libDirs": lib_dirs,
-            "fixedNames": sorted(set(fixed)), "listPages": sorted(pages.values())}
+    w = probe.probe_writeout()
+    kw = probe.probe_copytree()
+    return {"wipeWholeTree": w["wipeWholeTree"], "wipeFailureFatal": probe.probe_wipe_failure(),
+            "graphSkipsLinks": probe.probe_graph_links(), "copytreeSymlinks": kw["symlinks"],
+            "copytreeIgnoreDangling": kw["ignore_dangling_symlinks"], "copytreeDirsExistOk": kw["dirs_exist_ok"],
+            "symbolReplacements": probe.probe_symbols(), "outDirs": w["outDirs"], "libDirs": w["libDirs"],
+            "fixedNames": fixed_names(out), "listPages": list_pages()}
 
 
 def generate(repo: Path | None = None) -> dict:
     t = extract(repo)
-    L = ["/- GENERATED by translate/c19.py from ford/sourceform.py and ford/output.py - do not edit -/",
+    L = ["/- GENERATED by translate/c19.py (probes of the real code + ford/output.py) - do not edit -/",
          "import FordModel.Basic.Chars", "namespace Ford.Generated.C19", "",
-         "/-- `symlinks=` of the `shutil.copytree` call in `ford.output.copytree` (links kept as links) -/",
+         "/-- `ford.output.copytree` copies a symbolic link as a link (observed; `symlinks=True` of `shutil.copytree`) -/",
          "def copytreeSymlinks : Bool := " + lean_bool(t["copytreeSymlinks"]), "",
-         "/-- `ignore_dangling_symlinks=` of the same call -/",
+         "/-- ... passes silently over a link that points nowhere (observed; `ignore_dangling_symlinks=True`) -/",
          "def copytreeIgnoreDangling : Bool := " + lean_bool(t["copytreeIgnoreDangling"]), "",
-         "/-- `dirs_exist_ok=` of the same call -/",
+         "/-- ... accepts a destination that exists (observed; `dirs_exist_ok=True`) -/",
          "def copytreeDirsExistOk : Bool := " + lean_bool(t["copytreeDirsExistOk"]), "",
-         "/-- the clean-up in `Documentation.writeout` is `shutil.rmtree(<out_dir>)` on the output directory itself -/",
+         "/-- observed on a real run: nothing of the old output directory (files, directories, dot-entries, symbolic links) is left\n    when it is created again, and all the run did before were removals below it (`shutil.rmtree(<out_dir>)`) -/",
          "def wipeWholeTree : Bool := " + lean_bool(t["wipeWholeTree"]), "",
-         "/-- a failing `<out_dir>.mkdir(...)` after the clean-up ends the run -/",
+         "/-- observed on a real run: when the removal of a link of the old output directory fails the run ends without further attempts -/",
          "def wipeFailureFatal : Bool := " + lean_bool(t["wipeFailureFatal"]), "",
-         "/-- `FortranGraph._create_image_file` tests `is_symlink` before graphviz writes -/",
+         "/-- observed: `FortranGraph.create_svg` does not write through a symbolic link under `<imgfile>` / `<imgfile>.svg` -/",
          "def graphSkipsLinks : Bool := " + lean_bool(t["graphSkipsLinks"]), "",
-         "/-- the dict literal of `NameSelector.get_name` -/",
+         "/-- the per-character substitution of `NameSelector.get_name` (probed over an alphabet, validated on words) -/",
          "def symbolReplacements : List (Char × Str) := ["
-         + ", ".join(f"('{k}', {lean_str(v)})" if k not in "'\\" else f"(Char.ofNat {ord(k)}, {lean_str(v)})" for k, v in t["symbolReplacements"]) + "]", "",
-         "/-- fixed sub-directories created by `Documentation.writeout` -/",
+         + ", ".join(f"('{k}', {lean_str(v)})" if (k.isascii() and k.isprintable() and k not in "'\\") else f"(Char.ofNat {ord(k)}, {lean_str(v)})" for k, v in t["symbolReplacements"]) + "]", "",
+         "/-- fixed sub-directories a real run creates right after the output directory, in order -/",
          "def outDirs : List Str := [" + ", ".join(lean_str(d) for d in t["outDirs"]) + "]", "",
-         "/-- installation directories copied by `Documentation.writeout` -/",
+         "/-- installation directories a real run copies next, in order -/",
          "def libDirs : List Str := [" + ", ".join(lean_str(d) for d in t["libDirs"]) + "]", "",
-         "/-- string constants joined to the output directory in `writeout` -/",
+         "/-- string constants joined to the output directory in `writeout` and the helpers it calls -/",
          "def fixedNames : List Str := [" + ", ".join(lean_str(d) for d in t["fixedNames"]) + "]", "",
          "/-- `out_page` of the list pages -/",
          "def listPages : List Str := [" + ", ".join(lean_str(d) for d in t["listPages"]) + "]", "",
